@@ -20,6 +20,8 @@ def harnesses(tier, seed, want=None):
         H("c05::c05_e_reuse_is_fresh", desc="slot reuse: a later span in a closed span's slot has a fresh id / metadata / no parent; stale id is dead; live ids distinct", sym="metadata levels"),
         H("c05::c05_f_foreign_default_exit", kind="finding", role="foreign_default_exit", desc="span exited while the thread's default is another collector: own registry must release its reference, foreign collector must not be asked"),
         H("c05::c05_f_foreign_default_parent_release", kind="finding", role="foreign_default_parent_release", desc="child's last handle dropped while the default is another collector: parent must close too, foreign collector not involved"),
+        H("c05::c05_i_reentry_direct", desc="re-entering the current span takes no further reference (bare Registry; references measured by raw try_close calls): handle + one enter reference, however often re-entered"),
+        H("c05::c05_i_reentry_via_other", desc="re-entering a span with another span entered in between takes no further reference either (SpanStack::pop releases only for the non-duplicate entry)"),
         H("c05::c05_reach", kind="reach", desc="vacuity twin"),
     ]
     short = gen_c05.skeletons(3)
@@ -60,7 +62,7 @@ SPEC = {
                   "Context::span (inside on_close)"],
     "sym": "metadata level per span; histories enumerated as concrete skeletons (op kind, span, thread)",
     "bounds": "<= 3 spans, 2 simulated threads, skeletons of <= 4 ops exhaustive (well-formed, thread-symmetric, each closing or pinning a span) + seed-sampled skeletons of 5 ops (thorough); one recording layer; relative to the sharded-slab / thread_local shim contracts",
-    "outside": "schedules (concurrent reference-count operations), memory ordering; stacks with two or more layers over the registry (nested Layered::try_close exceeds 24 GB in CBMC: undecided, not claimed); Span-handle front end (C03); skeletons whose first enter on a thread follows a close (CBMC artefact, see gen_c05.py); histories longer than 5 ops",
+    "outside": "schedules (concurrent reference-count operations), memory ordering; exit under the registry's own dispatcher (Registry::exit -> dispatch::get_default -> try_close after an enter: every formulation tried - one layer, bare Registry, a forwarding stand-in collector - exceeds 30 GB or 900 s in CBMC; exit is decided only under a foreign default (finding harness) and, for the stack discipline, in the C06 SpanStack kernel; the enter-side reference accounting incl. re-entry is decided on the bare Registry); stacks with two or more layers over the registry (nested Layered::try_close exceeds 24 GB in CBMC: undecided, not claimed); Span-handle front end (C03); skeletons whose first enter on a thread follows a close (CBMC artefact, see gen_c05.py); histories longer than 5 ops",
     "stubs": ["std::rt::thread_cleanup -> no-op", "core::fmt::write -> Ok(())", "HashMap::clear -> assert empty (span extensions never populated)", "sharded-slab shim (in-place slot reuse, lowest free slot, generation in key, clear with outstanding guard = assertion)",
               "thread_local shim (one value per simulated thread)", "H1/H2 thread_local! shadow", "unregistered Dispatch as thread default"],
     "assumptions": ["skeletons are concrete operation sequences: the solver decides metadata values and every memory-safety / overflow / internal-assertion obligation of the real code on that path; the op/thread/span dimension is exhaustive enumeration up to the bound (reported as such)",
